@@ -252,13 +252,17 @@ class IPv4FlowSpec(NLRI):
         :return:
         """
         data_bin = b''
-        data_list = data.split('|')
+        # "|" separates alternatives, "&" joins the terms of one alternative
+        data_list = []
+        for group in data.split('|'):
+            for j, term in enumerate(group.split('&')):
+                data_list.append((1 if j > 0 else 0, term))
         eol = 0
-        for i, data in enumerate(data_list):
+        for i, (and_bit, data) in enumerate(data_list):
             if i == len(data_list) - 1:
                 eol = 1
-            if '&' not in data:
-                flag_dict = {'EOL': eol}
+            if data:
+                flag_dict = {'EOL': eol, 'AND': and_bit}
                 if data[0] == '=':
                     off_set = 1
                     flag_dict['EQ'] = 1
